@@ -4,6 +4,7 @@ import (
 	"fmt"
 	"os"
 	"path/filepath"
+	"sort"
 	"strings"
 )
 
@@ -138,6 +139,7 @@ func checkC05(e *Env, r *Report) {
 		return
 	}
 	errorPathProbe(e, r)
+	groupBuildProbe(e, r, f)
 	r.Coverage["configs"] = len(cfgs)
 	r.Coverage["episodes"] = len(eps)
 	r.Sample(map[string]any{"episode_files": eps[0].Files[:min(3, len(eps[0].Files))], "src": eps[0].Src, "none": eps[0].None})
@@ -195,4 +197,79 @@ func errorPathProbe(e *Env, r *Report) {
 		}
 	}
 	r.Coverage["error_path_headers_judged"] = n
+}
+
+// groupBuildProbe: prebuild --file <directory> builds one group on its own. The flags of every block of every
+// profile it writes are those of the same file in the whole build of that configuration (mode and manifests
+// decide, not the way the build was asked for).
+func groupBuildProbe(e *Env, r *Report, f *famBuilders) {
+	listed := map[string]bool{}
+	for _, n := range readListFile(filepath.Join(f.aug, "dists", "flags", "main.flags")) {
+		listed[n] = true
+	}
+	count := map[string]int{}
+	for _, pf := range profileFiles(f.aug) {
+		if strings.HasPrefix(pf, "groups/") && !strings.HasPrefix(pf, "groups/_full/") && listed[filepath.Base(pf)] {
+			count[filepath.Dir(pf)]++
+		}
+	}
+	groups := []string{}
+	for g, n := range count {
+		if n >= 2 {
+			groups = append(groups, g)
+		}
+	}
+	sort.Strings(groups)
+	if len(groups) > 2 && e.Tier != "thorough" {
+		groups = []string{groups[int(e.Seed)%len(groups)], groups[(int(e.Seed)+len(groups)/2)%len(groups)]}
+	}
+	blocks := func(p string) []string {
+		t, err := os.ReadFile(p)
+		if err != nil {
+			return nil
+		}
+		res := []string{}
+		for _, it := range Scan(string(t)) {
+			if it.T == "hdr" {
+				fl := append([]string{}, it.Flags...)
+				sort.Strings(fl)
+				res = append(res, it.Name+" ["+strings.Join(fl, ",")+"]")
+			}
+		}
+		return res
+	}
+	n := 0
+	for _, mode := range Modes {
+		c := Cfg{"arch", 4, "4.1", mode, false}
+		whole := e.RunPrebuild(c, BuildOpts{Src: f.aug, Tag: "groupwhole", NoCache: true})
+		if whole.Err != nil {
+			whole.Drop()
+			continue
+		}
+		for gi, g := range groups {
+			gb := e.RunPrebuild(c, BuildOpts{Src: f.aug, Tag: fmt.Sprint("group", gi), NoCache: true, Extra: []string{"--file", filepath.Join("apparmor.d", g)}})
+			if gb.Err != nil {
+				gb.Drop()
+				continue // a group that cannot be built on its own is not judged
+			}
+			for _, fn := range listFiles(filepath.Join(gb.Out, "apparmor.d")) {
+				if strings.Contains(fn, "/") {
+					continue
+				}
+				want := blocks(filepath.Join(whole.Out, "apparmor.d", fn))
+				got := blocks(filepath.Join(gb.Out, "apparmor.d", fn))
+				if want == nil || got == nil {
+					continue
+				}
+				n++
+				if strings.Join(want, ";") != strings.Join(got, ";") {
+					r.Violate(fmt.Sprintf("C05|groupbuild|%s|%s", fn, mode), fmt.Sprintf("built with --file %s the blocks of %s have other flags than in the whole %s build: %v instead of %v", g, fn, mode, got, want),
+						map[string]any{"file": fn, "mode": mode, "group": g, "got": got, "want": want})
+				}
+			}
+			gb.Drop()
+		}
+		whole.Drop()
+	}
+	r.Coverage["group_build_files_compared"] = n
 }
